@@ -96,6 +96,12 @@ def gen_configs(tier, seed, *, with_interrupts):
                                    ("traced-warm+main", 2, 2, "trace"), ("windowed", 2, 1, "trans")):
             for nchain, nproc in ((2, 0), (2, 2), (3, 3), (3, 2)):
                 cfgs.append(make_cfg(name, nchain, nproc, {"stage": s_, "chain": 0, "k": k_, "site": site}))
+        # an interrupt in a later chain of the very stage in which an earlier chain was dropped because an adapter could
+        # not be initialised for it (two handled per-chain events in one sequential stage: the interrupt must win)
+        for name, stage, k_ in (("warm+main", 1, 1), ("windowed", 2, 1), ("traced-warm+main", 1, 2)):
+            for nchain, bad, hit in ((2, 1, 2), (3, 1, 3), (3, 2, 3)):
+                cfgs.append(make_cfg(name, nchain, 0, {"stage": stage, "chain": hit, "k": k_, "site": "trans"},
+                                     initfail={"stage": stage, "chain": bad}))
     return cfgs
 
 
@@ -238,6 +244,7 @@ def run_real(cfg, *, seed=1234, storage="mem", delays=None, event_dir=None, init
             # the directory already holds the files of an earlier, complete call with the same layout (other
             # generator seed, no interrupt): nothing of it may show in what this call returns
             P.PLAN["interrupt"] = None
+            saved_initfail, P.PLAN["initfail"] = P.PLAN["initfail"], None
             first = MarkovChainMonteCarloMethod(rng=make_rng(bitgen, seed + 77), transitions=transitions)
             with warnings.catch_warnings():
                 warnings.simplefilter("ignore")
@@ -245,12 +252,28 @@ def run_real(cfg, *, seed=1234, storage="mem", delays=None, event_dir=None, init
                                     trace_funcs=[P.decoy_trace, P.probe_trace], adapters={"probe": []}, stager=P.FixedStager(layout),
                                     n_process=1, trace_warm_up=False, display_progress=False, **kw)
             P.PLAN["interrupt"] = cfg["intr"] if cfg["intr"]["stage"] else None
+            P.PLAN["initfail"] = saved_initfail
             P._FIRED[0] = False
             transitions["probe"].pfast, transitions["probe"].pslow = P.USER, P.USER
     obs = {"exception": None}
     import contextlib
     import io
 
+    # "memory-mapped outputs are flushed to disk": reading the file back in the same process cannot tell (the page
+    # cache serves it), so for in-process runs every np.memmap.flush() is observed together with the content it wrote out
+    flushed = {}
+    orig_flush = np.memmap.flush
+
+    def recording_flush(self):
+        try:
+            flushed[os.path.realpath(str(self.filename))] = np.asarray(self).tobytes()
+        except Exception:  # noqa: BLE001
+            pass
+        return orig_flush(self)
+
+    watch_flush = bool(tmp) and n_process == 1 and not second_call
+    if watch_flush:
+        np.memmap.flush = recording_flush
     try:
         with warnings.catch_warnings(), contextlib.redirect_stdout(io.StringIO()):
             warnings.simplefilter("ignore")
@@ -275,6 +298,8 @@ def run_real(cfg, *, seed=1234, storage="mem", delays=None, event_dir=None, init
         if tmp:
             shutil.rmtree(tmp, ignore_errors=True)
         return obs
+    finally:
+        np.memmap.flush = orig_flush
     total = int(bounds[-1]) if bounds else 0
     streams = expected_streams(seed, nchain, total, bitgen, kind)
     obs["rng"] = f"{bitgen}/{kind}"
@@ -323,6 +348,17 @@ def run_real(cfg, *, seed=1234, storage="mem", delays=None, event_dir=None, init
                 disk_ok &= bool(np.array_equal(np.load(f), np.asarray(out.statistics["probe"]["k"][c])))
             else:
                 disk_ok = False
+            if watch_flush:
+                for f, arr in ((Path(tmp) / f"trace_{c}_x.npy", out.traces["x"][c] if out.traces is not None else None),
+                               (Path(tmp) / f"stats_{c}_probe_k.npy", out.statistics["probe"]["k"][c]),
+                               (Path(tmp) / f"stats_{c}_probe_u.npy", out.statistics["probe"]["u"][c])):
+                    # (only arrays holding at least one recorded iteration: the initial fill of the arrays of a chain that
+                    #  was never started is written by the library without an explicit flush -- no recorded row is at stake)
+                    a_ = np.asarray(arr) if arr is not None else np.zeros(0)
+                    recorded = bool(a_.size and (np.any(a_ != -1) if a_.dtype.kind == "i" else not np.all(np.isnan(a_))))
+                    if arr is not None and isinstance(arr, np.memmap) and f.exists() and recorded:
+                        if flushed.get(os.path.realpath(str(f))) != np.asarray(arr).tobytes():
+                            obs["flush_missing"] = f.name
         obs["disk_ok"] = disk_ok
         del out
         shutil.rmtree(tmp, ignore_errors=True)
@@ -401,6 +437,10 @@ def judge(cfg, obs, terms, storage="mem", tag=""):
     want_dt = {"k": "int64", "u": "float64", "pfast": "float64", "pslow": "float64", "flag": "bool"}
     if obs["dtypes"] != want_dt:
         viol.append(("C13", f"C13:{mode.split('(')[0]}:stat-dtypes", f"statistic dtypes {obs['dtypes']} != declared {want_dt}"))
+    if obs.get("flush_missing"):
+        viol.append(("C15" if intr else "C13", f"{'C15' if intr else 'C13'}:{mode.split('(')[0]}:memmap-flush-missing",
+                     f"the returned memory-mapped array {obs['flush_missing']} was never flushed after its last write (no np.memmap.flush() "
+                     f"call wrote out its final content; {lay}, {mode})"))
     if obs.get("disk_ok") is False:
         viol.append(("C15" if intr else "C13", f"{'C15' if intr else 'C13'}:{mode.split('(')[0]}:memmap-not-flushed",
                      f".npy files on disk differ from the returned arrays ({lay}, {mode})"))
@@ -505,13 +545,17 @@ def hmc_run(*, sampler="static", adapters=("dual",), stager="default", n_warm=12
     system = mici.systems.EuclideanMetricSystem(_nld, grad_neg_log_dens=_gnld)
     integ = mici.integrators.LeapfrogIntegrator(system, step_size=None if "dual" in adapters else 0.3)
     rng = make_rng(bitgen, seed)
-    draws = []
+    draws, rng_states = [], []
     if record_draws:
         # instance-level wrapper (no source hook): every momentum handed out by the system, in the parent
         # process (meaningful for n_process=1 only)
         inner = system.sample_momentum
 
         def recording_sample_momentum(state, rng_):
+            try:
+                rng_states.append(repr(rng_.bit_generator.state))
+            except Exception:  # noqa: BLE001
+                pass
             mom = inner(state, rng_)
             draws.append(np.array(mom, copy=True).tolist())
             return mom
@@ -541,7 +585,7 @@ def hmc_run(*, sampler="static", adapters=("dual",), stager="default", n_warm=12
         from mici.states import ChainState
         init = [ChainState(pos=x, mom=np.array([0.5, -0.1 * (c + 1), 0.2]), dir=1) for c, x in enumerate(init)]
     tf = _IntrTrace(intr_call)
-    res = {"exception": None, "draws": draws}
+    res = {"exception": None, "draws": draws, "rng_states": rng_states}
     try:
         with warnings.catch_warnings():
             warnings.simplefilter("ignore")
